@@ -123,6 +123,9 @@ def wiring_case(rng: random.Random, rec: dict) -> tuple[dict, str | None]:
             got = lbfgs.minimise(*pos)
         else:
             got = lbfgs.minimise(**given)
+    except Exception as e:
+        return {"stream": "wiring", "dim": dim, "args_mode": mode}, \
+            f"minimise raised {type(e).__name__} around the recorded call: {e}"
     finally:
         scipy.optimize.fmin_l_bfgs_b = orig
     canon = {"stream": "wiring", "dim": dim, "args_mode": mode}
@@ -411,7 +414,7 @@ def correspond(ctx: Ctx) -> None:
             continue
         pg_py = np_projgrad(c.bounds, x, gx)
         scale = max(1.0, float(np.max(np.abs(gx))) if len(gx) else 1.0, float(np.max(np.abs(x))))
-        if len(pg_model) != len(pg_py) or any(abs(float(a) - b) > 1e-9 * scale for a, b in zip(pg_model, pg_py)):
+        if inbox_py and (len(pg_model) != len(pg_py) or any(abs(float(a) - b) > 1e-9 * scale for a, b in zip(pg_model, pg_py))):
             ctx.diverge("model:projGrad", f"model projected gradient {[float(a) for a in pg_model]} / numpy "
                         f"x-clip(x-g) {pg_py.tolist()}", c.describe())
         # the contract, clause by clause
